@@ -22,10 +22,63 @@
      split <hex>           -> <n> <length>*           script_lines_tr only: number of lines and their lengths
      cd <hex>              -> ok                      hstep (HCd dir): ts.cd := dir
      listing               -> none | l <key>=<value>* env_listing (key and value in hex, joined by "=")
+     srcstats              -> src <parse> <expand> <getenv> <setenv> <setEnv> <cmdEnv> <skipped> <mismatches> <first mismatch>
+                                                      how often the translated functions were run beside the
+                                                      model by this process, and how often they disagreed
      histholds <name>*     -> true|false|untracked    the requests since the last reset, read as a history
                                                       (line -> hcmd_of_line, setenv -> HSetenv, cd -> HCd):
                                                       hrun of that history from the reset state is the current
                                                       state, and history_holds is true for every name *)
+(* ---- the translated source beside the model.  Gen/TsParseSrc.v (testscript.go translated by
+   harness/go2coq) is extracted too; on every request that the model answers with parse / expand /
+   getenv / setenv / setup, the translated function is run on the receiver that holds the same state
+   and its result must be the model's.  A disagreement replaces the answer by SRC-MISMATCH (which the
+   runner then cannot match with the implementation) and is counted; "srcstats" reports the counts.
+   The translated tokenizer indexes the line as a list (quadratic), so lines longer than src_cap are
+   left to the model alone. *)
+let src_cap = 3000
+let src_evals : (string, int) Hashtbl.t = Hashtbl.create 8
+let src_mismatch = ref 0
+let src_first = ref "-"
+let src_skipped = ref 0
+let bump k = Hashtbl.replace src_evals k (1 + try Hashtbl.find src_evals k with Not_found -> 0)
+let recv_of (line : byte list) (s : ts_env) : ts_recv =
+  { r_line = line; r_env = s.env_list; r_envMap = Some s.env_map }
+let show_res show = function
+  | Ok x -> show x | Panic -> "PANIC" | OutOfFuel -> "OUTOFFUEL"
+(* check what ok ans: ans if the translated function agreed, the mismatch marker otherwise *)
+let src_check (what : string) (ok : bool) (detail : unit -> string) (ans : string) : string =
+  bump what;
+  if ok then ans else begin
+    incr src_mismatch;
+    let d = "SRC-MISMATCH " ^ what ^ " " ^ detail () in
+    if !src_first = "-" then src_first := d;
+    d
+  end
+let src_parse_check (s : ts_env) (line : byte list) (r : byte list list option) (ans : string) : string =
+  let n = List.length line in
+  if n > src_cap then (incr src_skipped; ans) else
+  let got = src_TestScript_parse (nat_of_int (n + 1)) (recv_of [] s) line in
+  let want = match r with
+    | None -> Ok Failed
+    | Some ws -> Ok (Done (recv_of line s, ws)) in
+  src_check "parse" (got = want)
+    (fun () -> hex_of_bytes line ^ " -> " ^ show_res (function Failed -> "failed" | Done (_, ws) -> "args " ^ String.concat " " (List.map hex_of_bytes ws)) got)
+    ans
+(* the env command with arguments: the translated cmdEnv gives the model's next state (and every K=V
+   argument through the translated Setenv alone does, too) *)
+let src_env_check (s : ts_env) (r : byte list list option) (s' : ts_env) (ans : string) : string =
+  match r with
+  | Some (c :: args) when c = ts_env_cmd && args <> [] ->
+      let step acc a = match acc, split_kv a with
+        | Ok rv, Some (k, v) -> src_TestScript_Setenv rv k v
+        | _, _ -> acc in
+      let got = List.fold_left step (Ok (recv_of [] s)) args in
+      let ans = src_check "setenv" (got = Ok (recv_of [] s')) (fun () -> "env line") ans in
+      src_check "cmdEnv" (src_TestScript_cmdEnv (recv_of [] s) false args = Ok (Done (recv_of [] s')))
+        (fun () -> "env line") ans
+  | _ -> ans
+
 let st = ref (setup_env [])
 let cd = ref []
 (* the history since the last reset (newest first), the reset state, and whether every state change
@@ -41,14 +94,25 @@ let show_args = function
 let () = serve (function
   | "reset" :: c :: vars ->
       cd := bytes_of_hex c; vars0 := List.map bytes_of_hex vars; cd0 := !cd; hist := []; tracked := true;
-      st := setup_env !vars0; "ok"
+      st := setup_env !vars0;
+      (* setEnv on a TestScript whose map was never made *)
+      src_check "setEnv"
+        (src_TestScript_setEnv { r_line = []; r_env = []; r_envMap = None } !vars0 = Ok (recv_of [] !st))
+        (fun () -> "reset") "ok"
   | ["line"; x] ->
       hist := hcmd_of_line !st (bytes_of_hex x) :: !hist;
-      let (s, r) = ts_step !st (bytes_of_hex x) in st := s; show_args r
-  | ["parse"; x] -> show_args (ts_parse !st (bytes_of_hex x))
+      let s0 = !st in
+      let (s, r) = ts_step s0 (bytes_of_hex x) in st := s;
+      src_env_check s0 r s (src_parse_check s0 (bytes_of_hex x) r (show_args r))
+  | ["parse"; x] ->
+      let r = ts_parse !st (bytes_of_hex x) in
+      src_parse_check !st (bytes_of_hex x) r (show_args r)
   | ["setenv"; k; v] ->
       hist := HSetenv (bytes_of_hex k, bytes_of_hex v) :: !hist;
-      st := setenv (bytes_of_hex k) (bytes_of_hex v) !st; "ok"
+      let s0 = !st in
+      st := setenv (bytes_of_hex k) (bytes_of_hex v) s0;
+      src_check "setenv" (src_TestScript_Setenv (recv_of [] s0) (bytes_of_hex k) (bytes_of_hex v) = Ok (recv_of [] !st))
+        (fun () -> k ^ " " ^ v) "ok"
   | "histholds" :: names ->
       if not !tracked then "untracked" else begin
         let h = List.rev !hist in
@@ -56,13 +120,24 @@ let () = serve (function
         string_of_bool (hstate_eqb s { hs_env = !st; hs_cd = !cd }
                         && List.for_all (fun n -> history_holds h !vars0 !cd0 (bytes_of_hex n)) names)
       end
-  | "getenv" :: names -> String.concat " " ("v" :: List.map (fun n -> hex_of_bytes (getenv !st (bytes_of_hex n))) names)
+  | "getenv" :: names ->
+      let ans = String.concat " " ("v" :: List.map (fun n -> hex_of_bytes (getenv !st (bytes_of_hex n))) names) in
+      List.fold_left (fun ans n ->
+        src_check "getenv" (src_TestScript_Getenv (recv_of [] !st) (bytes_of_hex n) = Ok (getenv !st (bytes_of_hex n)))
+          (fun () -> n) ans) ans names
   | ["child"] -> (match child_env !st !cd with None -> "none" | Some l -> if l = [] then "env" else "env " ^ hexes l)
   | ["childlookup"; n] ->
       (match child_env !st !cd with
        | None -> "none"
        | Some l -> (match child_lookup (bytes_of_hex n) l with None -> "none" | Some v -> "some " ^ hex_of_bytes v))
-  | ["expand"; x] -> hex_of_bytes (expand !st (bytes_of_hex x))
+  | ["expand"; x] ->
+      let e = expand !st (bytes_of_hex x) in
+      if String.length x > 2 * src_cap then (incr src_skipped; hex_of_bytes e) else
+      src_check "expand" (src_TestScript_expand (recv_of [] !st) (bytes_of_hex x) = Ok e) (fun () -> x) (hex_of_bytes e)
+  | ["srcstats"] ->
+      let n k = string_of_int (try Hashtbl.find src_evals k with Not_found -> 0) in
+      String.concat " " ["src"; n "parse"; n "expand"; n "getenv"; n "setenv"; n "setEnv"; n "cmdEnv";
+                         string_of_int !src_skipped; string_of_int !src_mismatch; !src_first]
   | ["quotemeta"; x] -> hex_of_bytes (quote_meta (bytes_of_hex x))
   | ["reliteral"; x] -> (match re_literal (bytes_of_hex x) with None -> "none" | Some s -> "some " ^ hex_of_bytes s)
   | ["utf8"; x] -> string_of_bool (utf8_ok (bytes_of_hex x))
@@ -84,8 +159,12 @@ let () = serve (function
       let s = hstep { hs_env = !st; hs_cd = !cd } (HCd (bytes_of_hex d)) in
       st := s.hs_env; cd := s.hs_cd; "ok"
   | ["listing"] ->
-      (match env_listing !st with
+      let l = env_listing !st in
+      let ans = (match l with
        | None -> "none"
-       | Some l -> String.concat " " ("l" :: List.map (fun (k, v) -> hex_of_bytes k ^ "=" ^ hex_of_bytes v) l))
+       | Some l -> String.concat " " ("l" :: List.map (fun (k, v) -> hex_of_bytes k ^ "=" ^ hex_of_bytes v) l)) in
+      (* the translated cmdEnv without arguments: the state as it was, or the panic on an entry without "=" *)
+      let want = (match l with None -> Panic | Some _ -> Ok (Done (recv_of [] !st))) in
+      src_check "cmdEnv" (src_TestScript_cmdEnv (recv_of [] !st) false [] = want) (fun () -> "listing") ans
   | ["consts"] -> hex_of_bytes ts_sep_bytes ^ " " ^ hex_of_bytes [ts_quote]
   | _ -> "BAD-REQUEST")
